@@ -20,7 +20,7 @@ TRUSTED = [
     "harness/h08 (translator of Lowered into Coq terms, program generator and mutations, impl-level oracle), "
     "lib/vlib.py",
 ]
-THEOREMS = ["C08_borrow_sound", "C08_example_use_after_move", "C08_example_not_dropped", "C08_example_diamond"]
+THEOREMS = ["C08_borrow_sound", "C08_moved_detected", "C08_example_moved_detected_applies", "C08_example_use_after_move", "C08_example_not_dropped", "C08_example_diamond"]
 
 
 def run(ctx):
